@@ -122,6 +122,28 @@ SRC_SPECS = [
          t_externals={'KTableCache().find_list_of_molecules()': ('ktableMolecules', 'strlist'),
                       'OpacityCache().find_list_of_molecules()': ('opacityMolecules', 'strlist'),
                       "GlobalCache()['deactive_molecules']": ('deactive', 'str')}),
+    # ---- Chemistry.get_gas_mix_profile with the @property getters it reads.  `self.activeGases` … are resolved to the
+    # getters of AutoChemistry (the class TaurexChemistry derives from; Chemistry's own are abstract).  `self.mixProfile` is
+    # an optional 2-D array (None before initialize_chemistry: the getters raise Exception), a mask is an optional index
+    # array (None: the getter returns None, and subscripting that None raises TypeError)
+    dict(module=_CDIR + 'autochemistry.py', cls='AutoChemistry', func='activeGases', getter=True, prop=True,
+         callname='self.activeGases', lean='auto_activeGases', dialect='seq', params={},
+         attrs={'self._active': ('active', 'strlist')}),
+    dict(module=_CDIR + 'autochemistry.py', cls='AutoChemistry', func='inactiveGases', getter=True, prop=True,
+         callname='self.inactiveGases', lean='auto_inactiveGases', dialect='seq', params={},
+         attrs={'self._inactive': ('inactive', 'strlist')}),
+    dict(module=_CDIR + 'autochemistry.py', cls='AutoChemistry', func='activeGasMixProfile', getter=True, prop=True,
+         callname='self.activeGasMixProfile', lean='auto_activeGasMixProfile', dialect='seq', params={}, raises=True,
+         returns=('optl', 'rows'),
+         attrs={'self.mixProfile': ('mixProfile', ('optl', 'rows')),
+                'self._active_mask': ('active_mask', ('optl', 'natlist'))}),
+    dict(module=_CDIR + 'autochemistry.py', cls='AutoChemistry', func='inactiveGasMixProfile', getter=True, prop=True,
+         callname='self.inactiveGasMixProfile', lean='auto_inactiveGasMixProfile', dialect='seq', params={}, raises=True,
+         returns=('optl', 'rows'),
+         attrs={'self.mixProfile': ('mixProfile', ('optl', 'rows')),
+                'self._inactive_mask': ('inactive_mask', ('optl', 'natlist'))}),
+    dict(module=_CDIR + 'chemistry.py', cls='Chemistry', func='get_gas_mix_profile', lean='get_gas_mix_profile',
+         dialect='seq', params=dict(gas_name='str'), raises=True),
 ]
 
 RULE = ('real TaurexChemistry with 1-4 fill gases (random ratios 1e-6..2) and 0-5 trace gases drawn from all five '
@@ -155,6 +177,11 @@ ASSUMPTIONS = [
     'a.argmin() is the FIRST minimum; self.gases / self.availableActive are read-only properties; zip(*L) of an empty '
     'list raises ValueError at the unpacking; OpacityCache / KTableCache / GlobalCache are inputs; deactive_molecules is '
     'None, a list of names, or one bare string',
+    'source tie of get_gas_mix_profile (dialect seq): self.activeGases / inactiveGases / activeGasMixProfile / '
+    'inactiveGasMixProfile are the getters of AutoChemistry; mixProfile[mask] selects the rows at the mask positions and '
+    'M[i] the i-th row (a position beyond the array, IndexError in numpy, is totalised to an empty row; the masks of '
+    'determine_active_inactive are positions of the gas list); the tie is stated for the object state '
+    'determine_active_inactive leaves',
 ]
 
 FILL_POOL = ['H2', 'He', 'N2', 'CO2', 'H2O', 'O2']
